@@ -213,7 +213,7 @@ Section MergeRules.
     | _ => comp_merge p s o
     end.
 
-  (* a dict merged onto a list: every key must be a valid (strict) index (list.py 133-143) *)
+  (* a non-deleting dict merged onto a list: every key must be a valid (strict) index (list.py 133-143) *)
   Definition dict_keys_ok (len : Z) (cho : list (key * node)) : bool :=
     forallb (fun kv => match validate_index len (fst kv) true with IdxOk _ => true | _ => false end) cho.
 
@@ -225,7 +225,7 @@ Section MergeRules.
   Definition list_merge (p : path) (s o : node) : res (node * who) :=
     match o with
     | Comp ko _ _ cho =>
-      if (negb (is_listk ko) && negb (dict_keys_ok (zlen (children s)) cho))%bool then Err EMerge p
+      if (negb (is_listk ko) && negb (delete o) && negb (dict_keys_ok (zlen (children s)) cho))%bool then Err EMerge p
       else comp_merge p s (fst (filter_nodes (keep_if_exists s) [] o))
     | Leaf _ _ _ => comp_merge p s o
     end.
